@@ -196,10 +196,13 @@ func c05Walk(data []byte, st *c05Stats) {
 	var err error
 	st.timed("SequentialScan", func() { fi, err = pdf.SequentialScan(bytes.NewReader(data), int64(len(data))) })
 	if err == nil {
-		var r *pdf.Reader
-		st.timed("MakeReader", func() { r, err = fi.MakeReader(nil) })
-		if err == nil {
-			c05WalkReader(r, st)
+		// every error-handling mode (the walk itself only once, with the defaults)
+		for i, opt := range []*pdf.ReaderOptions{nil, {ErrorHandling: pdf.ErrorHandlingReport}, {ErrorHandling: pdf.ErrorHandlingStop}, {ErrorHandling: pdf.ErrorHandlingRecover}} {
+			var r *pdf.Reader
+			st.timed("MakeReader", func() { r, err = fi.MakeReader(opt) })
+			if err == nil && r != nil && (i == 0 || st.readers == 0) {
+				c05WalkReader(r, st)
+			}
 		}
 	}
 }
